@@ -12,6 +12,7 @@
 import VDriver.Util
 import VModel.EventAccessors
 import VModel.StateResPanic
+import VModel.EventBuild
 namespace V.Driver.FuzzOps
 open V V.Json V.EventParse V.EventAccessors V.StateResPanic
 
@@ -88,10 +89,42 @@ def signOp (args : Array String) : Option String := do
     | none => some "nopanic\tnopanic"
   | .error _ => some "nopanic\tnopanic"
 
+/-- `fuzz.buildrefs <ver> <hex prev_events JSON | -> <hex auth_events JSON | ->`: `EventBuilder.Build` on a proto event
+    whose reference lists are the decoded texts (`-` = member absent) and whose other fields are fixed and good.  The
+    model is the reference conversion of `VModel.EventBuild` (`refsOfJSON` in event format 1, `refsV2OfJSON` otherwise);
+    outcome `ok:<hex prev_events of the built event>:<hex auth_events>` or `err`.  No specification column: an
+    implementation panic is a violation by itself, any other difference breaks the tie. -/
+def buildRefsOp (args : Array String) : Option String := do
+  let ver := strBytes (← args[0]?)
+  let dec (a : String) : Option (Option JVal) :=
+    if a == "-" then some none else
+    match unhex a with
+    | none => none
+    | some t => match parse t with
+      | some p => some (some p.toJVal)
+      | none => some none          -- (the harness passes nil for a text that does not decode)
+  let prev ← dec (← args[1]?)
+  let auth ← dec (← args[2]?)
+  match Redact.rowOf ver with
+  | none => some "err:version"
+  | some row =>
+    let texts := (args.toList.drop 1).filterMap unhex
+    if texts.any (fun t => decide (t.length > 20000)) then some "skip:reference list over 20000 bytes (event size limit not modelled here)" else
+    if texts.any (fun t => t.any (fun c => c ≥ 0x80 || c == 0x5C)) then some "skip:escapes / non-ASCII in a reference list" else
+    if row.eventFormat == 1 then
+      match EventBuild.refsOfJSON prev, EventBuild.refsOfJSON auth with
+      | .ok p, .ok a => some ("ok:" ++ hex (encodeCanon (.arr p)) ++ ":" ++ hex (encodeCanon (.arr a)))
+      | _, _ => some "err"
+    else
+      match EventBuild.refsV2OfJSON prev, EventBuild.refsV2OfJSON auth with
+      | some p, some a => some ("ok:" ++ hex (encodeCanon (.arr p)) ++ ":" ++ hex (encodeCanon (.arr a)))
+      | _, _ => some "err"
+
 def handle (op : String) (args : Array String) : Option String :=
   match op with
   | "event" => eventOp args
   | "sign" => signOp args
+  | "buildrefs" => buildRefsOp args
   | _ => some "nopanic\tnopanic"
 
 end V.Driver.FuzzOps
